@@ -89,7 +89,9 @@ func (e *Environment) BaseInfo() *BigMap {
 
 func (e *Environment) Info() Object {
 	allKeys := make([]Object, e.depth)
-	info := e.BaseInfo()
+	// A fresh map every time: the base (keywords, tokens, ...) is shared and cached, but globals and stack are set
+	// below, and a binding that holds an earlier info (K=info) must not see later ones.
+	info := e.BaseInfo().Clone()
 	for {
 		keys := make([]string, 0, len(e.store))
 		for k := range e.store {
